@@ -179,6 +179,10 @@ func (p *Parser) Parse() (al align.Alignment, err error) {
 		}
 		for i, name := range names {
 			seq := sequences[name]
+			if len(seq) == 0 {
+				err = fmt.Errorf("sequence #%d (%s) is empty", i, name)
+				return
+			}
 			if len(seq) != int(nchar) && nchar != -1 {
 				err = fmt.Errorf("number of character in sequence #%d (%d) does not correspond to definition %d", i, len(seq), nchar)
 				return
@@ -272,6 +276,9 @@ func (p *Parser) parseTaxa() (int64, map[string]bool, error) {
 						stopdimensions = true
 					}
 					ntax, err = strconv.ParseInt(lit4, 10, 64)
+					if err == nil && ntax < 0 {
+						err = fmt.Errorf("NTAX must not be negative, got %d", ntax)
+					}
 					if err != nil {
 						stopdimensions = true
 					}
@@ -367,6 +374,9 @@ func (p *Parser) parseData() (names []string, sequences map[string]string, nchar
 						stopdimensions = true
 					}
 					ntax, err = strconv.ParseInt(lit4, 10, 64)
+					if err == nil && ntax < 0 {
+						err = fmt.Errorf("NTAX must not be negative, got %d", ntax)
+					}
 					if err != nil {
 						stopdimensions = true
 					}
@@ -382,6 +392,9 @@ func (p *Parser) parseData() (names []string, sequences map[string]string, nchar
 						stopdimensions = true
 					}
 					nchar, err = strconv.ParseInt(lit4, 10, 64)
+					if err == nil && nchar < 0 {
+						err = fmt.Errorf("NCHAR must not be negative, got %d", nchar)
+					}
 					if err != nil {
 						stopdimensions = true
 					}
@@ -630,6 +643,7 @@ func (p *Parser) consumeComment(curtoken Token, curlit string) (outtoken Token, 
 			outtoken, outlit = p.scanIgnoreWhitespace()
 			if outtoken == EOF || outtoken == ILLEGAL {
 				err = fmt.Errorf("unmatched bracket")
+				return
 			}
 		}
 	}
